@@ -239,9 +239,14 @@ pub fn exec(ctx: &mut Ctx, acts: &[Act]) -> bool {
                         }
                         let (buf, sent) = cur.as_mut().unwrap();
                         let remaining = buf.len() - *sent;
-                        if *offered != remaining {
+                        // how much of the remainder one call offers is the implementation's business
+                        // (the whole remainder today); offering nothing, or more than is unsent, is not
+                        if *offered > remaining || *offered == 0 {
                             fault = Some(("offered-length".into(), format!("the stream was offered {} bytes, the unsent remainder of the head response is {}", offered, remaining)));
                             break;
+                        }
+                        if *offered < remaining {
+                            ctx.rep.count("writes_offering_less_than_the_remainder");
                         }
                         last_result = *result;
                         if *result > 0 {
@@ -401,16 +406,15 @@ pub fn run(ctx: &mut Ctx) {
     }
     // ---- single responses: every k in 1..len at the first and at the second write
     let mut idx = 0u64;
-    for id in [0u8, 1, 2, 5, 16, 17] {
+    for id in [0u8, 1, 2, 3, 5, 16, 17] {
         let len = serialize(&make_response(id, 1)).len();
         for k in 1..=len {
             idx += 1;
             if !ctx.mine(idx) {
                 continue;
             }
-            if quick && len > 500 && k % 7 != 0 && k + 3 < len {
-                continue;
-            }
+            // (every k also in the quick tier: equality boundaries of the remainder, e.g. exactly 4096
+            // bytes left, must not depend on luck)
             ctx.rep.count("single_response_every_k");
             exec(ctx, &[Act::Enq(id), Act::W(WriteEv::Accept(k)), Act::W(WriteEv::Accept(usize::MAX)), Act::W(WriteEv::Accept(usize::MAX))]);
             let first = 1 + (k % 5);
